@@ -66,14 +66,23 @@ impl World {
             }
             inits.push((Addr::unchecked(u.clone()), coins));
         }
-        let app: TApp = BasicAppBuilder::<XMsg, XQuery>::new_custom().with_api(MockApi::default().with_prefix(prefix)).with_custom(XModule).build(|router, _api, storage| {
+        let validators: Vec<String> = (0..setup.validators.min(2)).map(|i| format!("valoper{}", i)).collect();
+        let (vals, unbonding_time) = (validators.clone(), setup.unbonding_time);
+        let app: TApp = BasicAppBuilder::<XMsg, XQuery>::new_custom().with_api(MockApi::default().with_prefix(prefix)).with_custom(XModule).build(|router, api, storage| {
             for (a, c) in inits {
                 router.bank.init_balance(storage, &a, c).unwrap();
+            }
+            if !vals.is_empty() {
+                // zero rate: rewards (fixed-point) stay out of the tree engine, staking state is whole tokens
+                router.staking.setup(storage, cw_multi_test::StakingInfo { bonded_denom: model::BONDED.to_string(), unbonding_time, apr: cosmwasm_std::Decimal::zero() }).unwrap();
+                for v in &vals {
+                    router.staking.add_validator(api, storage, &cosmwasm_std::testing::mock_env().block, model::validator_obj(v)).unwrap();
+                }
             }
         });
         let b = app.block_info();
         st.block = (b.height, b.time.nanos(), b.chain_id);
-        let mut w = World { prefix, app, fx: Fixed { codes: BTreeMap::new(), users, fresh, nowhere }, st, ever: BTreeMap::new(), next_tag: 0 };
+        let mut w = World { prefix, app, fx: Fixed { codes: BTreeMap::new(), users, fresh, nowhere, validators, unbonding_time: setup.unbonding_time }, st, ever: BTreeMap::new(), next_tag: 0 };
         for c in &setup.codes {
             let _ = w.store(c);
         }
@@ -191,6 +200,18 @@ impl World {
                 }
             }
         }
+        for v in &self.fx.validators {
+            for d in self.fx.users.iter().chain(o.contracts.keys()) {
+                if let Ok(Some(fd)) = self.app.wrap().query_delegation(d.clone(), v.clone()) {
+                    o.delegations.insert((d.clone(), v.clone()), fd.amount.amount.u128());
+                }
+            }
+        }
+        for d in DENOMS {
+            if let Ok(c) = self.app.wrap().query_supply(d) {
+                o.supply.insert(d.to_string(), c.amount.u128());
+            }
+        }
         for t in 0..4u32 {
             if let Ok(r) = self.app.wrap().query::<XQueryResp>(&QueryRequest::Custom(XQuery { tag: t })) {
                 if let Some(m) = r.marker {
@@ -217,6 +238,14 @@ impl World {
             }
         }
         o.xmarks = st.xmarks.clone();
+        for ((d, v), a) in &st.deleg {
+            if *a > 0 {
+                o.delegations.insert((d.clone(), v.clone()), *a);
+            }
+        }
+        for d in DENOMS {
+            o.supply.insert(d.to_string(), st.bank.values().map(|m| m.get(d).copied().unwrap_or(0)).sum());
+        }
         o
     }
 }
@@ -487,6 +516,7 @@ impl World {
             out.push(Disc::new(&["C14"], panic_sig(&p), format!("block update panicked: {}", p)));
         }
         self.st.block = (b.height, b.time.nanos(), b.chain_id.clone());
+        model::process_queue(&mut self.st);
         let now = self.app.block_info();
         if now != b {
             out.push(Disc::new(&["C05"], "block:not-applied", format!("block_info() is {:?} after setting {:?}", now, b)));
